@@ -326,6 +326,38 @@ func fieldAndSymbol
   ensures a-qualified-argument-splits-at-its-first-dot: strings.IndexByte(strings.TrimSpace(arg), 46) >= 0 ==> field == stripQuotes(strings.TrimSpace(arg)[strings.IndexByte(strings.TrimSpace(arg), 46) + 1:]) && symbol == stripQuotes(strings.TrimSpace(arg)[:strings.IndexByte(strings.TrimSpace(arg), 46)])
   ensures a-bare-argument-has-no-symbol: strings.IndexByte(strings.TrimSpace(arg), 46) < 0 ==> field == stripQuotes(strings.TrimSpace(arg)) && symbol == ""
 
+// navigation and aggregate calls of DEFINE / MEASURES: each name is answered by its own reader with these arguments on
+// this match context (PREV looks one row back, NEXT one ahead; FIRST from the head, LAST from the tail); CLASSIFIER is
+// the candidate's label while a candidate is tested, else the label at the cursor; an unknown name is an error
+func evalNav
+  props C15
+  option assumed_frame
+  requires ctx != nil
+  observe pos := positionalField
+  observe fe := fromEndField
+  observe agg := aggregate
+  before positionalField prev-looks-one-row-back-next-one-ahead: $arg0 == ctx && $arg1 == args && $arg2 == ite(name == "PREV", -1, 1)
+  before fromEndField first-reads-from-the-head-last-from-the-tail-over-the-running-or-final-range-asked-for: $arg0 == ctx && $arg1 == args && $arg2 == (name == "FIRST") && $arg3 == final
+  before aggregate an-aggregate-is-computed-under-its-own-name-over-the-range-asked-for: $arg0 == name && $arg1 == args && $arg2 == ctx && $arg3 == final
+  atreturn classifier-is-the-candidates-label-while-one-is-tested-else-the-label-at-the-cursor: name == "CLASSIFIER" ==> result1 == nil && result0 == ite(ctx.candidate != nil, boxof(ctx.candLabel, string), ite(ctx.cur >= 0 && ctx.cur < len(ctx.labels), boxof(ctx.labels[ctx.cur], string), nil))
+  atreturn match-number-is-the-contexts: name == "MATCH_NUMBER" ==> result1 == nil && result0 == boxof(ctx.matchNumber, int)
+  atreturn a-navigation-call-returns-what-its-reader-found: (name == "PREV" || name == "NEXT" ==> result1 == nil && result0 == $pos) && (name == "FIRST" || name == "LAST" ==> result1 == nil && result0 == $fe) && (name == "SUM" || name == "AVG" || name == "COUNT" || name == "MIN" || name == "MAX" ==> result1 == nil && result0 == $agg)
+  atreturn an-unknown-name-is-an-error: name != "CLASSIFIER" && name != "MATCH_NUMBER" && name != "PREV" && name != "NEXT" && name != "FIRST" && name != "LAST" && name != "SUM" && name != "AVG" && name != "COUNT" && name != "MIN" && name != "MAX" ==> result1 != nil && result0 == nil
+
+pred candCarries(ctx, symbol) := ctx.candidate != nil && labelMatches(ctx.candLabel, symbol, ctx.subsets)
+
+// A.price in a DEFINE / MEASURES expression: the candidate row answers when it carries the symbol, otherwise the LATEST
+// row matched so far that carries it; no such row gives NULL
+func resolveSymbolField
+  props C15
+  option safety
+  requires ctx != nil && len(ctx.labels) <= len(ctx.rows)
+  ensures the-candidate-row-answers-when-it-carries-the-symbol: candCarries(ctx, symbol) ==> result == ctx.candidate[field]
+  ensures otherwise-the-latest-matched-row-that-carries-the-symbol-answers: !candCarries(ctx, symbol) ==> forall(j, 0, len(ctx.labels), labelMatches(ctx.labels[j], symbol, ctx.subsets) && forall(k, j + 1, len(ctx.labels), !labelMatches(ctx.labels[k], symbol, ctx.subsets)) ==> result == ctx.rows[j][field])
+  ensures no-row-carries-the-symbol-null: !candCarries(ctx, symbol) && forall(k, 0, len(ctx.labels), !labelMatches(ctx.labels[k], symbol, ctx.subsets)) ==> result == nil
+  loop 1 invariant -1 <= i && i < len(ctx.labels) && !candCarries(ctx, symbol) && forall(k, i + 1, len(ctx.labels), !labelMatches(ctx.labels[k], symbol, ctx.subsets))
+  loop 1 decreases i + 1
+
 // the row a DEFINE condition is about: the candidate row while one is being tested, else the row at the cursor
 func currentRow
   props C15
